@@ -31,7 +31,8 @@ Theorem C01_requests_bound : forall w e st1 x, counts_nonneg (es_counts st1) -> 
   \/ (exists r, req_bound (c_trials w) (w_cfg w) (e_max e) r /\
         ((c_sug w = None /\ x = (WSugCreate r, Stop)) \/
          (exists s, c_sug w = Some s /\ (x = (WSugSpec r (s_rv s), Stop) \/
-                                        exists n, x = (WTrialCreate n, Cont) /\ In n (ss_names (s_st s)))))).
+                                        exists n, x = (WTrialCreate n, Cont) /\ In n (ss_names (s_st s))))))
+  \/ (exists s, c_sug w = Some s /\ x = restart_write s /\ s_is (s_st s) SSucceeded = true /\ c_resume (w_cfg w) = FromVolume).
 Proof. exact plan_exp_reconcile_shape. Qed.
 Print Assumptions C01_requests_bound.
 
